@@ -283,6 +283,27 @@ def value_of(ab, ty, pyval):
         return V(ty, ab.key(pyval))
     if ty.k == 'vec':
         return V(ty, ab.vec(pyval))
+    if ty.k in ('arr1', 'arr1i'):
+        import numpy as np
+        arr = np.asarray(pyval)
+        if arr.ndim != 1:
+            raise sx.OutOfSubset('expected a 1-D array, got shape %s' % (arr.shape,))
+        t = z3.K(I, z3.RealVal(0) if ty.k == 'arr1' else z3.IntVal(0))
+        for i, x in enumerate(arr.tolist()):
+            t = z3.Store(t, i, rv(x) if ty.k == 'arr1' else z3.IntVal(int(x)))
+        return V(ty, t, items=[z3.IntVal(arr.shape[0])], py='fresh')
+    if ty.k == 'arr2':
+        import numpy as np
+        arr = np.asarray(pyval)
+        if arr.ndim != 2:
+            raise sx.OutOfSubset('expected a 2-D array, got shape %s' % (arr.shape,))
+        ii, jj = z3.Int('ci'), z3.Int('cj')
+        body = z3.RealVal(0)
+        for i in range(arr.shape[0]):
+            for j in range(arr.shape[1]):
+                if arr[i, j] != 0:
+                    body = z3.If(z3.And(ii == i, jj == j), rv(arr[i, j]), body)
+        return V(ty, z3.Lambda([ii, jj], body), items=[z3.IntVal(arr.shape[0]), z3.IntVal(arr.shape[1])], py='fresh')
     raise sx.OutOfSubset('concrete value of type %r' % (ty,))
 
 
